@@ -525,6 +525,25 @@ func drawSnippet(t *rapid.T, name string, e genEnv) []Op {
 				ops = append(ops, Op{K: "login", B: b, A: e.nAcct, Src: "pw", SA: e.nAcct})
 			}
 		}
+	case "evleak":
+		// the mailed 2FA e-mail-verify link is opened by a session that is not (fully) authed any more
+		if !c.Has("auth") || !c.EmailAuth {
+			return nil
+		}
+		k := rapid.IntRange(0, 1).Draw(t, "evkind")
+		if c.Middleware == "remember" && chance(t, "viahalf", 40) {
+			login.F = true
+		}
+		ops = append(ops, login)
+		if c.HasSetup("totp") {
+			ops = append(ops, Op{K: "totpvalidate", B: b, A: a, Src: "totp", SA: a})
+		}
+		if c.HasSetup("sms") {
+			ops = append(ops, Op{K: "smsvalidate", B: b, A: a, Src: "smssess"})
+		}
+		ops = append(ops, Op{K: "evstart", B: b, N: k})
+		ops = append(ops, Op{K: pick(t, "leave", "newsess", "logout", "newsess"), B: b})
+		ops = append(ops, Op{K: "evend", B: b, A: a, N: k, Src: "evtok", SA: a})
 	case "mangle":
 		// realistic manglings of genuine mailed tokens (copy/paste accidents)
 		mut := pick(t, "mangle", "dot", "space", "ext", "crlf", "lead", "double", "std64", "trunc")
